@@ -3,6 +3,7 @@ package props
 import (
 	"bytes"
 	"fmt"
+	"go.pennock.tech/tabular/length"
 	"html/template"
 	"io"
 	"os"
@@ -240,7 +241,7 @@ func c16Run(c *Ctx, i int, r *gen.R) {
 					// a very wide cell: paddings of the other cells of its column exceed any fixed scratch size
 					return gen.StrItem(strings.Repeat(gen.Pick(r, []string{"w", "=", "\u4e16"}), r.Range(81, 400)))
 				}
-				return r.TextItem(c10Fam, 4)
+				return r.TextItemSized(c10Fam, 4, length.StringCells)
 			}})
 		if r.Chance(1, 6) && spec.NCols() > 0 && len(spec.Rows) > 0 {
 			// headers every renderer accepts plus an item encoding/json refuses: this job's JSON renders fail part-way
